@@ -147,10 +147,14 @@ func universe(r *common.Rand, big bool) []ck.Blob {
 		bs[0].Size = 0 // the empty blob: no write at all
 	}
 	salt := r.Intn(1 << 30)
+	// the same store with sha512 digests: blobs/sha512 is created by the first of them
+	l512 := ck.Blob{ID: 1001, Alg: "sha512", Kind: "raw", Size: 1 + r.Intn(50000), Fill: r.U64() >> 12, MediaType: mtLayer}
 	bs = append(bs,
 		ck.Blob{ID: 4, Kind: "manifest", MediaType: mtManifest, JSON: manifestJSON(&bs[2], []*ck.Blob{&bs[0]}, salt)},
 		ck.Blob{ID: 5, Kind: "manifest", MediaType: mtManifest, JSON: manifestJSON(&bs[2], []*ck.Blob{&bs[0], &bs[1]}, salt+1)},
 		ck.Blob{ID: 6, Kind: "manifest", MediaType: mtManifest, JSON: manifestJSON(&bs[2], nil, salt+2)},
+		l512,
+		ck.Blob{ID: 1002, Alg: "sha512", Kind: "manifest", MediaType: mtManifest, JSON: manifestJSON(&bs[2], []*ck.Blob{&l512}, salt+3)},
 	)
 	return bs
 }
@@ -341,6 +345,7 @@ var finalKinds = []string{
 	"untag", "untag-missing",
 	"delete-tagged", "delete-digest-only", "delete-raw", "delete-missing",
 	"saveindex", "reopen",
+	"push-sha512", "push-manifest-sha512", "delete-sha512",
 }
 
 // realize extends the history so that the situation exists and returns the final op.
@@ -422,6 +427,16 @@ func realize(r *common.Rand, kind string, s *sim, hist *[]ck.Op) ck.Op {
 		return ck.Op{Kind: "delete", Blob: id}
 	case "reopen":
 		return ck.Op{Kind: "reopen"}
+	case "push-sha512":
+		ensure(1001, false)
+		return ck.Op{Kind: "push", Blob: 1001}
+	case "push-manifest-sha512":
+		ensure(1002, false)
+		return ck.Op{Kind: "push", Blob: 1002}
+	case "delete-sha512":
+		ensure(1002, true)
+		do(ck.Op{Kind: "tag", Blob: 1002, Ref: 5})
+		return ck.Op{Kind: "delete", Blob: 1002}
 	}
 	return ck.Op{Kind: "saveindex"}
 }
@@ -642,7 +657,7 @@ func observed(root string, sc *ck.Script) *sim {
 		for _, m := range idx.Manifests {
 			if r, ok := m.Annotations["org.opencontainers.image.ref.name"]; ok && strings.HasPrefix(r, "t") {
 				if v, err := strconv.Atoi(r[1:]); err == nil {
-					if id, ok := byHex[strings.TrimPrefix(m.Digest, "sha256:")]; ok {
+					if id, ok := byHex[m.Digest[strings.IndexByte(m.Digest, ':')+1:]]; ok {
 						s.tags[v] = id
 					}
 				}
@@ -973,8 +988,7 @@ func oracle(root string, sc *ck.Script, before, after *sim) []failure {
 		add("index-unreadable", "index.json is %s", status)
 	} else {
 		for _, m := range idx.Manifests {
-			hexd := strings.TrimPrefix(m.Digest, "sha256:")
-			fi, err := os.Stat(filepath.Join(root, "blobs", "sha256", hexd))
+			fi, err := os.Stat(ck.BlobPath(root, m.Digest))
 			if err != nil {
 				add("index-dangling", "index.json entry %s names a missing blob", m.Digest)
 			} else if fi.Size() != m.Size {
